@@ -160,7 +160,7 @@ def split_file(path, parts, d, by_trace=False):
     i = per
     while i < n:
         if by_trace:
-            while i < n and b'"ev":"scenario"' not in lines[i][:60]:
+            while i < n and b'"ev":"scenario"' not in lines[i][:60] and not (b'"n":1,' in lines[i][:40]):
                 i += 1
         if i < n:
             cuts.append(i)
